@@ -154,7 +154,14 @@ func c17Accept(w *core.W, in []byte, entry string) {
 				s, ok := ref.DecodeString(g.Value.Data())
 				okv = ok && "s:"+s == it.key
 			case 'n':
-				okv = g.Value.String() == it.lit
+				// Exponents are refused, so a number is a float exactly when it is
+				// written with a fraction (the kind the schema loader gives the
+				// same literal inline).
+				wantT := schema.SchemaTypeInteger
+				if strings.Contains(it.lit, ".") {
+					wantT = schema.SchemaTypeFloat
+				}
+				okv = g.Value.String() == it.lit && g.Type == wantT
 			case 't':
 				okv = g.Value.String() == "true"
 			case 'f':
@@ -171,6 +178,8 @@ func c17Accept(w *core.W, in []byte, entry string) {
 }
 
 // ---- meaning: enum: @e  ==  enum: [list]
+
+var c17Spellings = []string{`0`, `-0`, `0.0`, `-0.0`, `1`, `1.0`, `1.00`, `10`, `10.0`, `2.5`, `2.50`, `-1.0`, `"1.0"`, `"1"`}
 
 var c17Layouts = []string{"compact", "spaced", "lines", "line-notes", "block-notes", "empty-annotations"}
 
@@ -343,6 +352,21 @@ func c17Run(w *core.W) {
 		Key:   func(p []byte) (string, int, bool) { return enum.VerifKeyAfter(p, false) },
 		Check: func(in []byte) { c17Accept(w, in, "state") }}
 	st.Run()
+	// number spellings: every list of <= 3 entries over the spellings of a few
+	// numbers (trailing zeros, zero fraction, sign of zero, the same digits as a string)
+	if w.Shard == 0 {
+		var sp func(p []string)
+		sp = func(p []string) {
+			c17Accept(w, []byte("["+strings.Join(p, ",")+"]"), "spellings")
+			if len(p) == 3 {
+				return
+			}
+			for _, s := range c17Spellings {
+				sp(append(p, s))
+			}
+		}
+		sp(nil)
+	}
 	// meaning family
 	var lists [][]string
 	var gen func(p []string)
